@@ -27,6 +27,12 @@ checks.update({
    note="M3 (harness model) and the harness's own instruction-table decoding are trusted.",
    technique="bounded exhaustive enumeration of label sequences and stored-time sequences against a label-arithmetic reference model"),
 })
+checks.update({
+ "C11": dict(level=MC, ref="DESIGN.md §4 C11",
+   text="Exhaustive product of every binary/unary operator, cast and constant ternary with boundary operand sets, pushed through the real front end + const_simplify + Lowerer; the emitted immediate is compared with the M6 reference evaluator; undefined constants must be diagnosed. Partially constant expressions (bounded E-DFS) are executed before/after const_simplify; named vs inline constants and all definition orders of a const chain must emit identical instructions.",
+   note="M6 (i64 arithmetic + truncation, shifts mod 32, IEEE f32 as Rust implements it) trusted; && / || compared for truthiness only; AstVm for the partially-constant family.",
+   technique="exhaustive enumeration of operator x operand-boundary products against a reference evaluator; bounded exhaustive differential execution"),
+})
 pending = {}
 def main():
     try:
